@@ -40,6 +40,30 @@ type gateCfg struct {
 	Global    int   `json:"global"`
 	Disabled  bool  `json:"sampling_disabled"`
 	Sampler   *SCfg `json:"sampler"`
+	// Switch: when non-empty, the DisableSampling calls made (in this order) before the history runs; the
+	// last one equals Disabled.  Only sequences on which "the last call decides" and "calls nest" agree are
+	// generated (switchAdmissible), so nothing is demanded beyond "DisableSampling(true) admits everything"
+	// and the samplers' documented shares.
+	Switch []bool `json:"disable_sampling_calls,omitempty"`
+}
+
+// switchAdmissible: after these DisableSampling calls sampling is disabled under both readings of the
+// global switch - the last call decides / true-calls nest and false undoes one (never below none) - or
+// enabled under both.  Returns that common state.
+func switchAdmissible(calls []bool) (disabled, ok bool) {
+	if len(calls) == 0 {
+		return false, false
+	}
+	depth := 0
+	for _, v := range calls {
+		if v {
+			depth++
+		} else if depth > 0 {
+			depth--
+		}
+	}
+	last := calls[len(calls)-1]
+	return last, last == (depth > 0)
 }
 
 type ev struct {
@@ -263,6 +287,19 @@ var c13now int64
 // setGlobals: the two global settings are independent: whatever the order (and repetition) of the
 // setter calls, what counts is the last value given to each.
 func setGlobals(g gateCfg, n int) {
+	if len(g.Switch) > 0 {
+		if d, ok := switchAdmissible(g.Switch); !ok || d != g.Disabled {
+			panic(fmt.Sprintf("driver: DisableSampling calls %v do not end in sampling_disabled=%v under both readings", g.Switch, g.Disabled))
+		}
+		if n%2 == 0 {
+			zerolog.SetGlobalLevel(zerolog.Level(g.Global))
+		}
+		for _, v := range g.Switch {
+			zerolog.DisableSampling(v)
+		}
+		zerolog.SetGlobalLevel(zerolog.Level(g.Global))
+		return
+	}
 	switch (g.Global + n + 1000) % 3 {
 	case 0:
 		zerolog.SetGlobalLevel(zerolog.Level(g.Global))
@@ -489,7 +526,15 @@ func c13monitor(c *Ctx, g gateCfg, h []ev, got []bool) {
 		}
 		if top == nil || g.Disabled {
 			if !adm {
-				viol("unsampled-rejected", "gate", fmt.Sprintf("event %d passes the gate, no active sampler, but was rejected", i), nil)
+				how := ""
+				if top != nil && g.Disabled {
+					how = " (the logger has a sampler; sampling was switched off"
+					if len(g.Switch) > 0 {
+						how += fmt.Sprintf(" by the calls DisableSampling%v in this order", g.Switch)
+					}
+					how += ": DisableSampling(true) admits everything)"
+				}
+				viol("unsampled-rejected", "gate", fmt.Sprintf("event %d passes the gate, no active sampler, but was rejected", i)+how, nil)
 				break
 			}
 			if len(rec3) != 0 {
@@ -630,7 +675,7 @@ func countNodes(c *SCfg) int {
 }
 
 func runC13(c *Ctx) {
-	c.Res.Rule = "a case is (gate configuration incl. sampler tree with preset counters, history of (clock,level) events); bounded-exhaustive histories over a 5-point clock alphabet for small Burst/Period/N, then seeded random trees (depth<=3) and histories (<=60 events, non-monotonic clocks, int64 extremes, counters near 2^32); non-trivial = at least one admitted and one rejected event; distinct by (tree, history) text"
+	c.Res.Rule = "a case is (gate configuration incl. sampler tree with preset counters, history of (clock,level) events); bounded-exhaustive histories over a 5-point clock alphabet for small Burst/Period/N, every DisableSampling call sequence of length <= 4 (on which 'the last call decides' and 'calls nest' agree) x 6 sampler shapes; then seeded random trees (depth<=3) and histories (<=60 events, non-monotonic clocks, int64 extremes, counters near 2^32); non-trivial = at least one admitted and one rejected event; distinct by (tree, history) text"
 	c.OpenShards("From Verif Require Import Base.Prelude Misc.Level Lts.Sampler Harness.C13H.",
 		"(gate * list (Z * Z)) * list bool", "mismatches c13_run c13_eqb", 1000)
 	presetBasicOK = zerolog.VerifSetBasicCounter(&zerolog.BasicSampler{}, 1)
@@ -755,6 +800,54 @@ func runC13(c *Ctx) {
 	c.Res.ExtraCoverage["bounded_exhaustive_cases"] = exh
 	c.Res.ExtraCoverage["bounded_exhaustive_max_len"] = maxLen
 
+	// 1c. the global switch after a HISTORY of DisableSampling calls (not just one): every call sequence of
+	// length <= 4 on which the two readings of the switch agree (see switchAdmissible) x sampler shapes that
+	// reject (N=0), thin out (N=2,3), open windows (Burst) or dispatch by level; then 9 events.  Ending in
+	// true: every event that passes the level gate is admitted and no sampler is consulted; ending in false:
+	// the samplers' shares as everywhere else.
+	{
+		n := 0
+		samplers := []*SCfg{
+			{Kind: "basic", N: 0}, {Kind: "basic", N: 2}, {Kind: "basic", N: 3},
+			{Kind: "burst", Burst: 1, Period: 10}, {Kind: "burst", Burst: 2, Period: 10, Next: &SCfg{Kind: "basic", N: 2}},
+		}
+		ls := &SCfg{Kind: "level"}
+		ls.Sub[2] = &SCfg{Kind: "basic", N: 0}
+		ls.Sub[4] = &SCfg{Kind: "burst", Burst: 1, Period: 100}
+		samplers = append(samplers, ls)
+		var seqs [][]bool
+		for length := 1; length <= 4; length++ {
+			for bits := 0; bits < 1<<uint(length); bits++ {
+				calls := make([]bool, length)
+				for i := range calls {
+					calls[i] = bits>>uint(i)&1 == 1
+				}
+				if _, ok := switchAdmissible(calls); ok {
+					seqs = append(seqs, calls)
+				}
+			}
+		}
+		for _, calls := range seqs {
+			d, _ := switchAdmissible(calls)
+			for si, sc := range samplers {
+				h := make([]ev, 9)
+				for i := range h {
+					h[i] = ev{Now: int64(i * 3), Lvl: 1}
+					if si%2 == 1 && i%3 == 2 {
+						h[i] = ev{Now: int64(i * 3), Lvl: 3, Entry: "Error"}
+					}
+					if i == 4 {
+						h[i] = ev{Now: int64(i * 3), Lvl: -1, Entry: "Trace"} // below the logger's level: never admitted
+					}
+				}
+				emit(gateCfg{HasWriter: true, Level: 0, Global: -1, Disabled: d, Sampler: sc, Switch: calls}, h)
+				n++
+			}
+		}
+		c.Res.ExtraCoverage["disable_sampling_call_sequences"] = len(seqs)
+		c.Res.ExtraCoverage["disable_sampling_sequence_cases"] = n
+	}
+
 	// 2. random
 	nrand := 2500
 	if c.Thorough() {
@@ -775,6 +868,24 @@ func runC13(c *Ctx) {
 		}
 		n := 1 + r.Intn(60)
 		h := genHistory(r, n, r.Chance(6))
+		if r.Chance(15) {
+			// the switch reached through several DisableSampling calls: random prefix, then the deciding call
+			// (repeated when the state has to be reached through nested calls)
+			var calls []bool
+			for k := r.Intn(4); k > 0; k-- {
+				calls = append(calls, r.Bool())
+			}
+			calls = append(calls, g.Disabled)
+			for tries := 0; tries < 6; tries++ {
+				if _, ok := switchAdmissible(calls); ok {
+					break
+				}
+				calls = append(calls, g.Disabled)
+			}
+			if d, ok := switchAdmissible(calls); ok && d == g.Disabled {
+				g.Switch = calls
+			}
+		}
 		emit(g, h)
 	}
 
